@@ -160,10 +160,10 @@ class TextRenderer(BaseRenderer):
             # table will fit within maxline.
             while sum(outwidths) > maxline:
                 index = maxwidths.index(max(maxwidths))
-                maxwidths[i] -= 1
-                outwidths[i] -= 1
-                if maxwidths[i] == minwidths[i]:
-                    maxwidths[i] = -1
+                maxwidths[index] -= 1
+                outwidths[index] -= 1
+                if maxwidths[index] == minwidths[index]:
+                    maxwidths[index] = -1
 
         # Render cells to correct widths
         rendered = []
